@@ -51,6 +51,7 @@ def run_dag_batch(case):
         for f in r["fails"]:
             f["dag_case"] = c
         out["fails"] += r["fails"]
+        out["diffs"] += r["diffs"]
     return out
 
 
@@ -66,14 +67,22 @@ def run_dag_case(case):
         done.append(f"{u}>{v}")
         lines.append(f"DEPTHS {case['dag']} " + " ".join(done))
         obs.append(" ".join(str(sd.dag.nodes[i]["depth"]) for i in range(case["dag"])))
+    lines.append(f"RELAXSEQ {case['dag']} " + " ".join(done))
     rep = common.run_driver(lines)
-    fails = []
+    fails, diffs = [], []
     for j, (a, b) in enumerate(zip(obs, rep)):
         if a != b:
             fails.append({"kind": "depth-not-longest-path", "sig": {}, "detail":
                           f"after inserting edges {done[:j + 1]}: depths {a}, longest paths {b}"})
             break
-    return {"fails": fails, "diffs": [], "tags": ["dag-insertion"], "nontrivial": len(case["edges"]) > case["dag"],
+    # tie of the algorithm itself: Balm.Depth.updateDepth step by step (and it must report completion)
+    model = rep[-1].split(" | ")
+    for j, (a, m) in enumerate(zip(obs, model)):
+        md, flag = m.split(":")
+        if md.replace(",", " ") != a or flag != "done":
+            diffs.append({"stream": "OBS depth bookkeeping vs Balm.Depth.updateDepth", "after": done[:j + 1], "impl": a, "model": m})
+            break
+    return {"fails": fails, "diffs": diffs, "tags": ["dag-insertion"], "nontrivial": len(case["edges"]) > case["dag"],
             "sig": common.case_hash(case)}
 
 
